@@ -149,3 +149,117 @@ fn c11_systeminfo_cpuinfo_unreadable() {
 fn c11_systeminfo_cpuinfo_empty() {
     systeminfo_cpu_failure();
 }
+
+// ---- memory-info list: one entry per memory-map line, same range, protection and private/shared type ----
+// `MemoryMaps::from_file` is a default method of the foreign trait `procfs_core::FromRead`; it is replaced
+// by a trait default method of our own (DESIGN 0.5) that hands back the scripted lines.  The REAL
+// memory_info_list_stream::write turns them into the stream.
+pub static mut MIL_LINES: [(u64, u64, u8); 3] = [(0, 0, 0); 3];
+pub static mut MIL_N: usize = 0;
+pub trait StubMapsFromFile: Sized {
+    fn stub_from_file<P: AsRef<std::path::Path>>(_path: P) -> procfs_core::ProcResult<Self> {
+        use procfs_core::process::{MMapPath, MemoryMap, MemoryMaps};
+        assert!(core::mem::size_of::<Self>() == core::mem::size_of::<MemoryMaps>());
+        let mut v: Vec<MemoryMap> = Vec::with_capacity(3);
+        unsafe {
+            let mut i = 0;
+            while i < MIL_N {
+                v.push(MemoryMap {
+                    address: (MIL_LINES[i].0, MIL_LINES[i].1),
+                    perms: MMPermissions::from_bits_truncate(MIL_LINES[i].2),
+                    offset: 0,
+                    dev: (0, 0),
+                    inode: 0,
+                    pathname: MMapPath::Anonymous,
+                    extension: Default::default(),
+                });
+                i += 1;
+            }
+            let maps: MemoryMaps = core::mem::transmute::<Vec<MemoryMap>, MemoryMaps>(v);
+            let out: Self = core::ptr::read(&maps as *const MemoryMaps as *const Self);
+            core::mem::forget(maps);
+            Ok(out)
+        }
+    }
+}
+impl StubMapsFromFile for procfs_core::process::MemoryMaps {}
+
+fn memory_info_list<const N: usize>() {
+    use crate::linux::sections::memory_info_list_stream;
+    let mut lines = [(0u64, 0u64, 0u8); N];
+    let mut cur: u64 = kani::any();
+    kani::assume(cur >= 0x1000 && cur < (1u64 << 46));
+    for i in 0..N {
+        let gap: u64 = kani::any();
+        let len: u64 = kani::any();
+        let perms: u8 = kani::any();
+        kani::assume(gap <= 0x10_0000 && len >= 1 && len <= (1u64 << 40));
+        lines[i] = (cur + gap, cur + gap + len, perms & 0x1f);
+        cur = cur + gap + len;
+    }
+    unsafe {
+        MIL_N = N;
+        for i in 0..N {
+            MIL_LINES[i] = lines[i];
+        }
+    }
+    let mut cfg = MinidumpWriter::new(4242, 4243);
+    let mut buf = Buffer::with_capacity(200);
+    let pre: [u8; 8] = kani::any();
+    buf.write_all(&pre);
+    let dirent = match memory_info_list_stream::write(&mut cfg, &mut buf) {
+        Ok(d) => d,
+        Err(e) => {
+            core::mem::forget(e);
+            panic!("memory_info_list_stream::write failed");
+        }
+    };
+    assert_eq!(dirent.stream_type, crate::minidump_format::MDStreamType::MemoryInfoListStream as u32);
+    let rva = dirent.location.rva as usize;
+    assert_eq!(rva, 8);
+    assert_eq!(dirent.location.data_size as usize, 16 + 48 * N, "header + one 48-byte entry per line");
+    assert_eq!(buf.len(), rva + 16 + 48 * N);
+    assert_eq!(rd_u32(&buf, rva), 16, "size of header");
+    assert_eq!(rd_u32(&buf, rva + 4), 48, "size of entry");
+    assert_eq!(rd_u64(&buf, rva + 8), N as u64, "one entry per memory-map line");
+    let i: usize = kani::any();
+    kani::assume(i < N);
+    let e = rva + 16 + 48 * i;
+    let (lo, hi, p) = lines[i];
+    let perms = MMPermissions::from_bits_truncate(p);
+    let (r, w, x) = (perms.contains(MMPermissions::READ), perms.contains(MMPermissions::WRITE), perms.contains(MMPermissions::EXECUTE));
+    let prot: u32 = match (r, w, x) {
+        (false, false, false) => 0x01,
+        (false, false, true) => 0x10,
+        (true, false, false) => 0x02,
+        (true, false, true) => 0x20,
+        (_, true, false) => 0x04,
+        (_, true, true) => 0x40,
+    };
+    assert_eq!(rd_u64(&buf, e), lo, "base address of line i");
+    assert_eq!(rd_u64(&buf, e + 8), lo, "allocation base");
+    assert_eq!(rd_u32(&buf, e + 16), prot, "allocation protection");
+    assert_eq!(rd_u64(&buf, e + 24), hi - lo, "region size of line i");
+    assert_eq!(rd_u32(&buf, e + 32), 0x1000, "state: committed");
+    assert_eq!(rd_u32(&buf, e + 36), prot, "protection");
+    assert_eq!(rd_u32(&buf, e + 40), if perms.contains(MMPermissions::PRIVATE) { 0x20000 } else { 0x40000 }, "private / mapped");
+    kani::cover!(perms.contains(MMPermissions::PRIVATE) && w, "a private writable line");
+    kani::cover!(!perms.contains(MMPermissions::PRIVATE), "a shared line");
+    core::mem::forget(cfg);
+}
+macro_rules! mil {
+    ($name:ident, $n:expr) => {
+        #[kani::proof]
+        #[kani::unwind(8)]
+        #[kani::stub(procfs_core::FromRead::from_file, crate::verif::c18_streams::StubMapsFromFile::stub_from_file)]
+        #[kani::stub(std::fmt::format, crate::verif::env::stub_format)]
+        #[kani::stub(std::vec::Vec::resize, crate::verif::env::stub_vec_resize)]
+        #[kani::stub(std::hash::RandomState::new, crate::verif::c13_aggregate::stub_random_state_new)]
+        fn $name() {
+            memory_info_list::<$n>();
+        }
+    };
+}
+mil!(c18_memory_info_list_1, 1);
+mil!(c18_memory_info_list_2, 2);
+mil!(c18_memory_info_list_3, 3);
